@@ -5,6 +5,7 @@ import OW.Proofs.ClimateFreezing
 import OW.Proofs.ClimateBisect
 import OW.Proofs.ClimateCont
 import OW.Proofs.ClimateDewCounter
+import OW.Proofs.ClimateRange
 import Mathlib.Tactic.Linarith
 import Mathlib.Tactic.Positivity
 import Mathlib.Tactic.NormNum
@@ -29,6 +30,13 @@ Theorems over the kernel model `OW/Kernels/Climate.lean` at `α := ℝ` (exact r
 * `dewPoint_le_dryBulb_iff`, `dewPoint_le_dryBulb_of_magnus`, `dewPoint_le_dryBulb_at_zero` — dew point ≤ dry bulb holds EXACTLY when
   the Goff-Gratch actual vapour pressure is ≤ the Magnus saturation pressure at the dry bulb; it is NOT a theorem for all
   0 < RH ≤ 100: `dewPoint_exceeds_dryBulb_example` proves 40 < dewPoint 40 100 (Goff-Gratch > Magnus at 40 °C, verified numerics)
+* `dewpoint_mono_humidity_range` — the same with the denominator hypothesis discharged on (−273.16, 100] × (0, 100] (`magnus_denominator_pos`)
+* `sample_enthalpy_le_sat` — the upper half of the bracketing hypothesis of `wetbulb_converges*` derived from RH ≤ 100
+* `no_zero_divisor` — on T ∈ [−40, 55], RH ∈ (0, 100], elevation ∈ [0, 10000] every divisor / log argument / power base is positive
+  (`vp(55) ≤ 18.04 < 22.4 ≤ barometricPressure(10000)`, verified numerics `OW.Proofs.ClimateRange`): the ℝ content of "finite"
+* `run_eq_map_sample`, `run_spec` — the whole run is the per-day computation; the one-sample theorems for every day
+* `ordered_reading_counterexample` — the ORDERED reading "dew ≤ wet ≤ dry" is false at 40 °C / 100 % (known finding
+  KF-C20-dewpoint-above-drybulb); the order-free reading is what `wetbulb_between` proves
 NOT proved (listed as such in checks/C20.py): finiteness in IEEE arithmetic (ℝ has no non-finite values; finiteness is checked by the
 oracle on the real code); continuity of the searched function ACROSS 0 °C is false (jump), so `wetbulb_converges_*` are per side.
 -/
@@ -366,8 +374,9 @@ theorem dewPoint_le_dryBulb_at_zero (rh : ℝ) (hrh : 0 < rh) (hrh' : rh ≤ 100
 /-- **dewPoint_exceeds_dryBulb_example.** "dew point ≤ dry bulb for 0 < RH ≤ 100" is FALSE for this code (model and real code
 agree: `ClimateVariables` at dryBulb = 40, humidity = 100 returns dewPoint = 40.00548757635144, deltaT = −0.0054875…): at 40 °C
 the Goff-Gratch saturation pressure 7.37777 kPa exceeds the Magnus one 7.37561 kPa (`magnus_lt_goffGratch_40`, verified
-numerics), so saturated air gets a dew point strictly above the dry bulb. Recorded as a property of the chosen formulas, not
-raised as a defect (DESIGN §6 C20); it is why `wetbulb_between` is stated with `min`/`max`. -/
+numerics), so saturated air gets a dew point strictly above the dry bulb. Known finding KF-C20-dewpoint-above-drybulb (a property of
+the chosen pair of published formulas; oracle scope `ClimateVariables:dewpoint-above-drybulb`); it is why `wetbulb_between`
+is stated with `min`/`max`, and `ordered_reading_counterexample` draws the consequence for wet bulb and depression. -/
 theorem dewPoint_exceeds_dryBulb_example : (40:ℝ) < dewPoint 40 100 := by
   have hgm := magnus_lt_goffGratch_40
   have hv100 : vaporPressure (100:ℝ) = 101.325 := by
@@ -463,6 +472,181 @@ example : dewPoint (0:ℝ) 50 < dewPoint (0:ℝ) 100 := by
   have : Real.log (101.325 * 0.0060273 * 100 / 100 / 0.6108) < 0 := by
     apply Real.log_neg (by norm_num) (by norm_num)
   linarith
+
+/-! ### the meteorological range: no division by zero, bracketing, dew point vs humidity -/
+
+/-- saturation vapour pressure is at most one standard atmosphere up to the boiling point -/
+theorem vp_le_boiling (t : ℝ) (h0 : -273.16 < t) (h1 : t ≤ 100) : vaporPressure t ≤ 101.325 := by
+  rcases eq_or_lt_of_le h1 with h | h
+  · rw [h, vp_hundred]
+  · have := vp_strictMono t 100 h0 h (le_refl _)
+    rw [vp_hundred] at this
+    exact this.le
+
+/-- **The Magnus denominator is positive on the meteorological range**: for `−273.16 < T ≤ 100` and `0 < RH ≤ 100`,
+`ln(ea / 0.6108) < 17.27` (`ea ≤ vp(100 °C) = 101.325 kPa`, `101.325 / 0.6108 < 2¹⁷ ≤ e^17.27`) — the divisor
+`17.27 − Func` of `calcDewPoint` is positive. -/
+theorem magnus_denominator_pos (t rh : ℝ) (h0 : -273.16 < t) (h1 : t ≤ 100) (hrh : 0 < rh) (hrh' : rh ≤ 100) :
+    Real.log (vaporPressure t * rh / 100 / 0.6108) < 17.27 := by
+  have hpos := vp_pos t
+  have hle := vp_le_boiling t h0 h1
+  have hx : 0 < vaporPressure t * rh / 100 / 0.6108 := by positivity
+  rw [Real.log_lt_iff_lt_exp hx]
+  have h17 : (2:ℝ) ^ 17 ≤ Real.exp 17.27 := by
+    have h2 : (2:ℝ) ≤ Real.exp 1 := by have := Real.exp_one_gt_d9; linarith
+    calc (2:ℝ) ^ 17 ≤ Real.exp 1 ^ 17 := pow_le_pow_left₀ (by norm_num) h2 17
+      _ = Real.exp 17 := by rw [← Real.exp_nat_mul]; norm_num
+      _ ≤ Real.exp 17.27 := Real.exp_le_exp.mpr (by norm_num)
+  have hea : vaporPressure t * rh / 100 ≤ 101.325 := by
+    rw [div_le_iff₀ (by norm_num)]; nlinarith
+  have : vaporPressure t * rh / 100 / 0.6108 < 2 ^ 17 := by
+    rw [div_lt_iff₀ (by norm_num)]; linarith
+  linarith
+
+/-- **dewpoint_mono_humidity_range — "dew point rises with humidity" on the meteorological range**, with the
+denominator hypothesis of `dewpoint_mono_humidity` discharged: for every dry bulb `−273.16 < T ≤ 100` (⊇ [−40, 55]) and
+humidities `0 < RH₁ < RH₂ ≤ 100`, `dewPoint T RH₁ < dewPoint T RH₂`. -/
+theorem dewpoint_mono_humidity_range (t rh1 rh2 : ℝ) (h0 : -273.16 < t) (h1 : t ≤ 100)
+    (hr1 : 0 < rh1) (h12 : rh1 < rh2) (hr2 : rh2 ≤ 100) : dewPoint t rh1 < dewPoint t rh2 :=
+  dewpoint_mono_humidity t rh1 rh2 hr1 h12 (magnus_denominator_pos t rh2 h0 h1 (by linarith) hr2)
+
+/-- the enthalpy the kernel searches for (`e` of `sample`): `calcEnthalpy(T, calcHumidityRatioActual(T, RH, pa))`,
+in closed form -/
+theorem sample_enthalpy_eq (pa t rh : ℝ) :
+    enthalpy t (humidityRatioActual t rh pa) =
+      1.006 * t + (1.84 * t + 2501) * (0.62198 * vaporPressure t / (pa - vaporPressure t) * rh / 100) := by
+  unfold enthalpy humidityRatioActual humidityRatio
+  simp only [ofNat_lit 2501, ofNat_lit 100]
+
+/-- **Upper half of the bracketing hypothesis of `wetbulb_converges*`, derived from the humidity**: for `RH ≤ 100`,
+below the boiling point of the given pressure (`vp T < pa`, the divisor of `calcHumidityRatio` positive) and
+`1.84·T + 2501 > 0` (T > −1359 °C), the enthalpy of the air is at most the saturated-air enthalpy at the dry bulb:
+`hE ≤ satEnthalpy pa T` — the `hhi` of `wetbulb_converges`, `wetbulb_converges_water`, `wetbulb_converges_ice`. -/
+theorem sample_enthalpy_le_sat (pa t rh : ℝ) (hrh : rh ≤ 100) (hpa : vaporPressure t < pa) (ht : 0 < 1.84 * t + 2501) :
+    enthalpy t (humidityRatioActual t rh pa) ≤ satEnthalpy pa t := by
+  rw [sample_enthalpy_eq, satEnthalpy_eq]
+  have hv := vp_pos t
+  have hd : 0 < pa - vaporPressure t := by linarith
+  have hW : 0 ≤ 0.62198 * vaporPressure t / (pa - vaporPressure t) := by positivity
+  generalize 0.62198 * vaporPressure t / (pa - vaporPressure t) = W at hW ⊢
+  have : W * rh / 100 ≤ W := by
+    rw [div_le_iff₀ (by norm_num)]; nlinarith
+  nlinarith
+
+/-- `wetbulb_converges_water` for the kernel's own sample, with the upper bracketing half discharged: dry bulb and dew
+point above freezing, `RH ≤ 100`, `vp < pa` on the bracket; what remains a hypothesis is the LOWER half
+`satEnthalpy pa dew < hE` (it mixes the Magnus inversion with Goff-Gratch). -/
+theorem sample_wetbulb_converges_water (pa t rh : ℝ) (ht : 0 < t) (hd : 0 < dewPoint t rh) (hrh : rh ≤ 100)
+    (hne : ∀ x ∈ uIcc (dewPoint t rh) t, vaporPressure x < pa)
+    (hlo : satEnthalpy pa (dewPoint t rh) < enthalpy t (humidityRatioActual t rh pa)) :
+    ∃ c ∈ uIcc (dewPoint t rh) t, satEnthalpy pa c = enthalpy t (humidityRatioActual t rh pa) ∧
+      (|(sample pa t rh).wetBulb - c| < 0.0001 ∨ |(sample pa t rh).wetBulb - c| ≤ |t - dewPoint t rh| / 2 ^ 40) :=
+  wetbulb_converges_water t (dewPoint t rh) _ pa hd ht
+    (fun x hx => by have := hne x hx; linarith) hlo
+    (sample_enthalpy_le_sat pa t rh hrh (hne t right_mem_uIcc) (by linarith))
+
+/-- **no_zero_divisor — the ℝ content of "all outputs are finite"** on the property's range `T ∈ [−40, 55]`,
+`RH ∈ (0, 100]`, `elevation ∈ [0, 10000]`, with `pa = barometricPressure elevation`: every divisor and every argument of
+a logarithm / fractional power on the path to the four outputs is positive —
+* `T + 273.16 > 0` (divisor of `z` in `calcVaporPressure`; then `z > 0`, the divisor `1/z` and argument of `log10`);
+* the base `(293 − 0.0065·elevation)/293` of the barometric power is positive, and `22.4 ≤ pa ≤ 101.3` kPa;
+* `vp(x) < pa` for EVERY `x ∈ (−273.16, 55]` (`vp(55) ≤ 18.04 < 22.4 ≤ pa(10000)`): the divisor `pa − vp` of
+  `calcHumidityRatio` is positive at the dry bulb and at every bisection midpoint that is not above 55 °C;
+* `ea = vp·RH/100 > 0` (the `if ea > 0` branch of `calcDewPoint` is taken; `ea/0.6108 > 0` is the argument of `log`);
+* `17.27 − ln(ea/0.6108) > 0` (divisor of the dew point).
+NOT covered: bisection midpoints ABOVE the dry bulb (they exist only when dew > dry, by < 0.006 °C, known finding
+KF-C20-dewpoint-above-drybulb) and IEEE overflow/underflow, which ℝ cannot express (sampled by the oracle). -/
+theorem no_zero_divisor (t rh elev : ℝ) (ht0 : -40 ≤ t) (ht1 : t ≤ 55) (hrh0 : 0 < rh) (hrh1 : rh ≤ 100)
+    (he0 : 0 ≤ elev) (he1 : elev ≤ 10000) :
+    0 < t + 273.16 ∧
+    0 < (293 - 0.0065 * elev) / 293 ∧
+    22.4 ≤ barometricPressure elev ∧ barometricPressure elev ≤ 101.3 ∧
+    (∀ x : ℝ, -273.16 < x → x ≤ 55 → 0 < barometricPressure elev - vaporPressure x) ∧
+    0 < vaporPressure t * rh / 100 ∧
+    0 < 17.27 - Real.log (vaporPressure t * rh / 100 / 0.6108) := by
+  obtain ⟨hb0, _⟩ := baro_base_range elev he0 he1
+  obtain ⟨hp0, hp1⟩ := barometricPressure_range elev he0 he1
+  have hv := vp_pos t
+  refine ⟨by linarith, lt_of_lt_of_le (by norm_num) hb0, hp0, hp1, ?_, by positivity, ?_⟩
+  · intro x hx0 hx1
+    have h55 := vp_55_upper
+    have : vaporPressure x ≤ vaporPressure 55 := by
+      rcases eq_or_lt_of_le hx1 with h | h
+      · rw [h]
+      · exact (vp_strictMono x 55 hx0 h (by norm_num)).le
+    linarith
+  · have := magnus_denominator_pos t rh (by linarith) (by linarith) hrh0 hrh1
+    linarith
+
+/-! ### whole runs -/
+
+/-- **run = map sample.** The kernel's loop over the days is the per-sample computation at the barometric pressure of
+the elevation, day by day (no state is carried between days). -/
+theorem run_eq_map_sample (elevation : ℝ) (xs : List (ℝ × ℝ)) :
+    run elevation xs = xs.map (fun x => sample (barometricPressure elevation) x.1 x.2) := by
+  unfold run
+  rfl
+
+/-- **run_spec — the one-sample theorems for every day of a run**: as many outputs as days, and for the `i`-th day
+(dry bulb `t`, humidity `rh`): the vapour pressure is positive, the wet bulb lies between dew point and dry bulb (order-free)
+and the reported depression is dry bulb minus wet bulb. -/
+theorem run_spec (elevation : ℝ) (xs : List (ℝ × ℝ)) :
+    List.Forall₂ (fun (x : ℝ × ℝ) (o : Out ℝ) =>
+        o = sample (barometricPressure elevation) x.1 x.2 ∧
+        0 < o.vaporPressure ∧ o.vaporPressure = vaporPressure x.1 ∧ o.dewPoint = dewPoint x.1 x.2 ∧
+        min o.dewPoint x.1 ≤ o.wetBulb ∧ o.wetBulb ≤ max o.dewPoint x.1 ∧ o.deltaT = x.1 - o.wetBulb)
+      xs (run elevation xs) := by
+  rw [run_eq_map_sample]
+  induction xs with
+  | nil => exact List.Forall₂.nil
+  | cons x xs ih =>
+    refine List.Forall₂.cons ⟨rfl, vp_pos x.1, rfl, rfl, ?_, ?_, rfl⟩ ih
+    · exact (sample_wetbulb_between _ x.1 x.2).1
+    · exact (sample_wetbulb_between _ x.1 x.2).2
+
+/-! ### the ordered reading "dew ≤ wet ≤ dry" -/
+
+/-- when the dew point exceeds the dry bulb the bisection runs downwards from the dew point: the wet bulb is at least the
+dry bulb and the reported depression is ≤ 0 -/
+theorem sample_deltaT_nonpos_of_dew_gt (pa t rh : ℝ) (h : t < dewPoint t rh) :
+    t ≤ (sample pa t rh).wetBulb ∧ (sample pa t rh).wetBulb ≤ dewPoint t rh ∧ (sample pa t rh).deltaT ≤ 0 := by
+  have hb := bisect_between_nonpos (satEnthalpy pa) (enthalpy t (humidityRatioActual t rh pa)) 40 (dewPoint t rh)
+    (t - dewPoint t rh) (by linarith)
+  have e : dewPoint t rh + (t - dewPoint t rh) = t := by ring
+  rw [e] at hb
+  have hw : (sample pa t rh).wetBulb = bisect (satEnthalpy pa) (enthalpy t (humidityRatioActual t rh pa)) 40
+      (dewPoint t rh) (t - dewPoint t rh) := rfl
+  refine ⟨by rw [hw]; exact hb.1, by rw [hw]; exact hb.2, ?_⟩
+  rw [deltaT_def, hw]; linarith [hb.1]
+
+/-- **ordered_reading_counterexample** (known finding KF-C20-dewpoint-above-drybulb): the ORDERED reading of the clause,
+"dew point ≤ wet bulb ≤ dry bulb", is FALSE for the code at 40 °C / 100 %, at every pressure: the dew point is above the
+dry bulb (`dewPoint_exceeds_dryBulb_example`), the wet bulb is not below the dry bulb, the depression is ≤ 0. The
+order-free reading (`wetbulb_between`) holds. -/
+theorem ordered_reading_counterexample (pa : ℝ) :
+    ¬ (dewPoint 40 100 ≤ (sample pa 40 100).wetBulb ∧ (sample pa 40 100).wetBulb ≤ (40:ℝ)) ∧
+    (40:ℝ) ≤ (sample pa 40 100).wetBulb ∧ (sample pa 40 100).deltaT ≤ 0 := by
+  have h := dewPoint_exceeds_dryBulb_example
+  obtain ⟨a, _, c⟩ := sample_deltaT_nonpos_of_dew_gt pa 40 100 h
+  exact ⟨fun hh => by linarith [hh.1, hh.2], a, c⟩
+
+/-! ### non-vacuity (range theorems) -/
+
+example : dewPoint (30:ℝ) 40 < dewPoint (30:ℝ) 90 :=
+  dewpoint_mono_humidity_range 30 40 90 (by norm_num) (by norm_num) (by norm_num) (by norm_num) (by norm_num)
+example : dewPoint (-40:ℝ) 0.0001 < dewPoint (-40:ℝ) 100 :=
+  dewpoint_mono_humidity_range (-40) 0.0001 100 (by norm_num) (by norm_num) (by norm_num) (by norm_num) (by norm_num)
+/-- the hottest day at the highest station: every divisor positive -/
+example : 0 < barometricPressure (10000:ℝ) - vaporPressure (55:ℝ) :=
+  (no_zero_divisor 55 100 10000 (by norm_num) (le_refl _) (by norm_num) (le_refl _) (by norm_num) (le_refl _)).2.2.2.2.1
+    55 (by norm_num) (le_refl _)
+/-- `sample_enthalpy_le_sat` at sea level: 25 °C, 60 % -/
+example : enthalpy (25:ℝ) (humidityRatioActual 25 60 (barometricPressure 0)) ≤ satEnthalpy (barometricPressure 0) 25 :=
+  sample_enthalpy_le_sat _ 25 60 (by norm_num)
+    (by have := (no_zero_divisor 25 60 0 (by norm_num) (by norm_num) (by norm_num) (by norm_num) (le_refl _) (by norm_num)).2.2.2.2.1
+          25 (by norm_num) (by norm_num); linarith)
+    (by norm_num)
+example : (run (100:ℝ) [(20, 50), (-5, 80)]).length = 2 := (run_spec 100 [(20, 50), (-5, 80)]).length_eq.symm
 
 end OW.Props.C20
 
